@@ -667,7 +667,7 @@ fn trapdoor_case(ctx: &mut Ctx, i: usize) {
     let (max_nv, max_d) = if ctx.thorough { (5, 5) } else { (3, 4) };
     let nv = if range(&mut rng, 0, 5) == 0 { 1 } else { range(&mut rng, 2, max_nv) };
     let d = if range(&mut rng, 0, 5) == 0 { 1 } else { range(&mut rng, 2, max_d) };
-    let s = if coin(&mut rng) { d } else { range(&mut rng, 1, d) };
+    let s = if range(&mut rng, 0, 2) > 0 { d } else { range(&mut rng, 1, d) };
     let trap = Trap::random(&mut rng, nv, d);
     let pp = trap.params();
     let head = format!("{}# supported_degree={} case={} seed={}\n", trap.desc(), s, id, ctx.seed);
@@ -699,7 +699,7 @@ fn trapdoor_case(ctx: &mut Ctx, i: usize) {
     let mut kinds = vec![];
     let mut hbs = vec![];
     for j in 0..npoly {
-        let deg = if coin(&mut rng) { s } else { range(&mut rng, 0, s) };
+        let deg = if range(&mut rng, 0, 2) > 0 { s } else { range(&mut rng, 0, s) };
         let (p, kind) = gen_poly(&mut rng, nv, deg);
         let hb = if coin(&mut rng) { Some(range(&mut rng, 1, s)) } else { None };
         kinds.push(kind);
